@@ -239,6 +239,19 @@ impl From<&VersionChangeManifest> for Vec<u8> {
                 .unwrap();
         }
 
+        #[cfg(raindb_verif)]
+        let mut deleted_files_in_order: Vec<&DeletedFile> = manifest.deleted_files.iter().collect();
+        #[cfg(raindb_verif)]
+        deleted_files_in_order.sort_by_key(|deleted| (deleted.level, deleted.file_number));
+        #[cfg(raindb_verif)]
+        for file_descriptor in deleted_files_in_order {
+            let DeletedFile { level, file_number } = file_descriptor;
+            buf.write_varint(ManifestFieldTags::DeletedFile as u32)
+                .unwrap();
+            buf.write_varint(*level as u32).unwrap();
+            buf.write_varint(*file_number).unwrap();
+        }
+        #[cfg(not(raindb_verif))]
         for file_descriptor in &manifest.deleted_files {
             let DeletedFile { level, file_number } = file_descriptor;
             buf.write_varint(ManifestFieldTags::DeletedFile as u32)
